@@ -142,49 +142,50 @@ func noExcerpt(ex *excerpt) bool { return len(ex.lines) == 0 && ex.strayCarets =
 
 // matches: is msg an allowed rendering of (L, C) over file version v?
 // why explains the first reason it is not.
-func matches(ex *excerpt, v []byte, L, C, limit int, agg *core.Agg) (ok bool, why string) {
+func matches(ex *excerpt, v []byte, L, C, limit int, agg *core.Agg) (ok bool, why string, score int) {
 	lines, nl := splitLines(v)
 	n := len(lines)
 	if L > n {
 		if noExcerpt(ex) {
 			agg.Inc("probe.short_file_no_excerpt")
-			return true, ""
+			return true, "", 0
 		}
 		// a file ending in a newline may be said to have an empty line n+1
 		if L == n+1 && nl {
 			lines2 := append(append([]string{}, lines...), "")
 			if okVirtual(ex, lines2, L, limit) {
-				return true, ""
+				return true, "", 0
 			}
 		}
-		return false, fmt.Sprintf("class=partial-excerpt-short-file: the served file has %d line(s), the diagnostic is on line %d, yet an excerpt is shown", n, L)
+		return false, fmt.Sprintf("class=partial-excerpt-short-file: the served file has %d line(s), the diagnostic is on line %d, yet an excerpt is shown", n, L), score
 	}
 	if len(ex.lines) == 0 {
-		return false, fmt.Sprintf("class=excerpt-missing: the file was served (%d lines, diagnostic on line %d) but the message has no excerpt", n, L)
+		return false, fmt.Sprintf("class=excerpt-missing: the file was served (%d lines, diagnostic on line %d) but the message has no excerpt", n, L), score
 	}
 	if ex.strayCarets > 0 {
-		return false, "class=caret-misplaced: a caret line that does not follow a numbered line"
+		return false, "class=caret-misplaced: a caret line that does not follow a numbered line", score
 	}
 	hasL := false
 	for i, l := range ex.lines {
 		if i > 0 && l.n != ex.lines[i-1].n+1 {
-			return false, fmt.Sprintf("class=context-not-neighbouring: excerpt line numbers %d then %d", ex.lines[i-1].n, l.n)
+			return false, fmt.Sprintf("class=context-not-neighbouring: excerpt line numbers %d then %d", ex.lines[i-1].n, l.n), score
 		}
 		if l.n < 1 || l.n > n {
-			return false, fmt.Sprintf("class=context-not-neighbouring: excerpt shows line %d of a %d-line file", l.n, n)
+			return false, fmt.Sprintf("class=context-not-neighbouring: excerpt shows line %d of a %d-line file", l.n, n), score
 		}
 		src := lines[l.n-1]
 		ps := parsesOf(l.text, src, limit, 0)
 		if len(ps) == 0 {
 			if len(l.text) > limit+6 {
-				return false, fmt.Sprintf("class=excerpt-line-too-long: excerpt line %d is %d bytes, limit %d + ellipses", l.n, len(l.text), limit)
+				return false, fmt.Sprintf("class=excerpt-line-too-long: excerpt line %d is %d bytes, limit %d + ellipses", l.n, len(l.text), limit), score
 			}
-			return false, fmt.Sprintf("class=excerpt-unfaithful: excerpt line %d does not show source line %d (source %d bytes: %q; shown %d bytes: %q)", l.n, l.n, len(src), clip(src, 80), len(l.text), clip(l.text, 80))
+			return false, fmt.Sprintf("class=excerpt-unfaithful: excerpt line %d does not show source line %d (source %d bytes: %q; shown %d bytes: %q)", l.n, l.n, len(src), clip(src, 80), len(l.text), clip(l.text, 80)), score
 		}
+		score++
 		if l.n == L {
 			hasL = true
 			if l.caret == nil {
-				return false, fmt.Sprintf("class=caret-missing: no caret line under line %d", L)
+				return false, fmt.Sprintf("class=caret-missing: no caret line under line %d", L), score
 			}
 			if C >= 1 && C <= len(src) {
 				okCaret := false
@@ -200,10 +201,10 @@ func matches(ex *excerpt, v []byte, L, C, limit int, agg *core.Agg) (ok bool, wh
 					}
 				}
 				if !contains {
-					return false, fmt.Sprintf("class=column-not-shown: the shown part of line %d does not contain column %d (line %d bytes, %s)", L, C, len(src), regime(len(src), C, limit))
+					return false, fmt.Sprintf("class=column-not-shown: the shown part of line %d does not contain column %d (line %d bytes, %s)", L, C, len(src), regime(len(src), C, limit)), score
 				}
 				if !okCaret {
-					return false, fmt.Sprintf("class=caret-misaligned: caret prefix is %d wide, which is not under column %d of line %d (line %d bytes, %s)", len(*l.caret), C, L, len(src), regime(len(src), C, limit))
+					return false, fmt.Sprintf("class=caret-misaligned: caret prefix is %d wide, which is not under column %d of line %d (line %d bytes, %s)", len(*l.caret), C, L, len(src), regime(len(src), C, limit)), score
 				}
 				agg.Inc("probe.caret_checked." + regime(len(src), C, limit))
 				if strings.Contains(src[:C-1], "\t") {
@@ -216,13 +217,13 @@ func matches(ex *excerpt, v []byte, L, C, limit int, agg *core.Agg) (ok bool, wh
 				agg.Inc("probe.column_outside_line_totality_only")
 			}
 		} else if l.caret != nil {
-			return false, fmt.Sprintf("class=caret-misplaced: caret under line %d, diagnostic is on line %d", l.n, L)
+			return false, fmt.Sprintf("class=caret-misplaced: caret under line %d, diagnostic is on line %d", l.n, L), score
 		}
 	}
 	if !hasL {
-		return false, fmt.Sprintf("class=line-missing: excerpt shows lines %d..%d but not the diagnostic's line %d", ex.lines[0].n, ex.lines[len(ex.lines)-1].n, L)
+		return false, fmt.Sprintf("class=line-missing: excerpt shows lines %d..%d but not the diagnostic's line %d", ex.lines[0].n, ex.lines[len(ex.lines)-1].n, L), score
 	}
-	return true, ""
+	return true, "", 0
 }
 
 // okVirtual: the excerpt of a diagnostic on the empty line after the final
@@ -304,22 +305,6 @@ func regime(n, col, limit int) string {
 	}
 }
 
-// whyRank orders explanations when several served versions were tried: the
-// one that names a defect of the rendering proper beats "content differs",
-// which is what comparing against the wrong version always says.
-func whyRank(why string) int {
-	switch {
-	case strings.HasPrefix(why, "class=excerpt-unfaithful"), strings.HasPrefix(why, "class=context-not-neighbouring"):
-		return 1
-	case strings.HasPrefix(why, "class=line-missing"):
-		return 2
-	case strings.HasPrefix(why, "class=partial-excerpt-short-file"):
-		return 4
-	default:
-		return 3
-	}
-}
-
 var classRe = regexp.MustCompile(`^class=([a-z-]+): `)
 
 func judge(msg string, position token.Position, d *disk, rep int, limit int, agg *core.Agg) *failure {
@@ -333,6 +318,7 @@ func judge(msg string, position token.Position, d *disk, rep int, limit int, agg
 	}
 	versions := d.served[name]
 	var firstWhy string
+	bestScore := -1
 	// newest first: the common case
 	for i := len(versions) - 1; i >= 0; i-- {
 		v := versions[i]
@@ -346,7 +332,7 @@ func judge(msg string, position token.Position, d *disk, rep int, limit int, agg
 		if dup {
 			continue
 		}
-		ok, why := matches(ex, v, L, C, limit, agg)
+		ok, why, score := matches(ex, v, L, C, limit, agg)
 		if ok {
 			if i != len(versions)-1 {
 				agg.Inc("probe.message_shows_older_served_version")
@@ -356,8 +342,9 @@ func judge(msg string, position token.Position, d *disk, rep int, limit int, agg
 			}
 			return nil
 		}
-		if firstWhy == "" || whyRank(why) > whyRank(firstWhy) {
-			firstWhy = why
+		// explain against the version the message agrees with furthest
+		if score > bestScore {
+			firstWhy, bestScore = why, score
 		}
 	}
 	if len(versions) == 0 {
